@@ -225,7 +225,7 @@ func ruleP14Model(p *Prog, r *Report) {
 		var find ssa.CallInstruction
 		eachInstr(tags, func(in ssa.Instruction) {
 			if c, ok := in.(ssa.CallInstruction); ok {
-				if n, _, _, _ := methodCallOf(c); n == "FindAllStringSubmatch" {
+				if n, _, _, _ := methodCallOf(c); n == "FindAllStringSubmatch" || n == "FindAllString" {
 					find = c
 				}
 			}
@@ -244,7 +244,23 @@ func ruleP14Model(p *Prog, r *Report) {
 		eachInstr(tags, func(in ssa.Instruction) {
 			if c, isC := in.(ssa.CallInstruction); isC && sameFn(staticCallee(c), put) {
 				if tc, idx := callOf(c.Common().Args[1]); tc != nil && idx == 0 && staticCallee(tc) != nil && fnBase(staticCallee(tc)) == "NewTagFromString" {
-					if only, _ := onlyLoopGuards(c.Block()); only {
+					// the text handed over is the WHOLE match: m[0] of a submatch list, or the
+					// element of FindAllString
+					whole := false
+					a := strip(tc.Common().Args[0])
+					if find != nil {
+						fname, _, _, _ := methodCallOf(find)
+						if fname == "FindAllString" {
+							whole = rangeElemOf(a) != nil && sameValue(rangeElemOf(a), find.Value())
+						} else if u, isU := a.(*ssa.UnOp); isU && u.Op == token.MUL {
+							if ia, isIA := u.X.(*ssa.IndexAddr); isIA {
+								if k, isK := constInt(ia.Index); isK && k == 0 {
+									whole = true
+								}
+							}
+						}
+					}
+					if only, _ := onlyLoopGuards(c.Block()); only && whole {
 						okPut = true
 					}
 				}
